@@ -108,7 +108,7 @@ def run_valid(chk, mods, quick):
     ex = short_strings(3)
     cases += ex
     chk.cov["streams"]["valid.exhaustive_len<=3"] = len(ex)
-    n = 20000 if quick else 600000
+    n = 40000 if quick else 1000000
     cases += [rand_name(rng) for _ in range(n)]
     chk.cov["streams"]["valid.random"] = n
     cases += NON_STRINGS
@@ -193,13 +193,13 @@ def arn_cases(chk, quick):
         if c.get("op") in ("create", "parse"):
             cases.append(dict(c))
     # every short string as the resource, under several resource types
-    for s in short_strings(2 if quick else 3):
+    for s in short_strings(3):
         for t in (None, "", "stateMachine", "t/u"):
             cases.append({"op": "create", "parts": ["arn", "aws", "states", "local", "0123", t, s]})
         cases.append({"op": "parse", "text": "arn:aws:states:local:0123:" + s})
         cases.append({"op": "parse", "text": s})
     chk.cov["streams"]["arn.exhaustive_resource"] = len(cases)
-    n = 8000 if quick else 300000
+    n = 20000 if quick else 500000
     for _ in range(n):
         r = rng.random()
         if r < 0.45:   # well-formed: separator-free fields
@@ -535,15 +535,12 @@ def run_sites(chk, mods, env, quick):
             cases.append(dict(c, stream="corpus"))
     chk.cov["streams"]["sites.corpus"] = len(cases)
     # exhaustive short names, once as the execution name and once as the state machine name
-    short = short_strings(2 if quick else 3)
-    if quick:
-        three = ["".join(rng.choice(ALPHABET) for _ in range(3)) for _ in range(700)]
-        short = short + three
+    short = short_strings(3)
     for s in short:
         cases.append({"op": "sites", "region": "local", "account": "0123", "sm": "machine-1", "name": s, "stream": "short"})
         cases.append({"op": "sites", "region": "local", "account": "0123", "sm": s, "name": "run.1", "stream": "short"})
     chk.cov["streams"]["sites.short_names"] = 2 * len(short)
-    n = 1500 if quick else 60000
+    n = 4000 if quick else 100000
     for _ in range(n):
         r = rng.random()
         sm = rand_valid_name(rng) if r < 0.8 else rand_name(rng)
@@ -717,7 +714,7 @@ def run_api(chk, mods, env, quick):
         if c.get("op") == "api":
             cases.append(dict(c))
     chk.cov["streams"]["api.corpus"] = len(cases)
-    n = 700 if quick else 20000
+    n = 2500 if quick else 40000
     for _ in range(n):
         sm = rand_valid_name(rng) if rng.random() < 0.85 else rand_name(rng)
         nm = rand_valid_name(rng) if rng.random() < 0.7 else rand_name(rng)
@@ -764,12 +761,18 @@ def run_api(chk, mods, env, quick):
             if got != want:
                 bad.append({"site": label, "impl": got, "model": want})
         expect("CreateStateMachine accepts", o["create"][0] != "InvalidName", m["valid.sm"][1])
+        if o["create"][0] not in ("ok", "InvalidName"):
+            bad.append({"site": "CreateStateMachine outcome", "impl": o["create"], "model": "ok | InvalidName"})
         if o.get("sm_arn"):
             expect("CreateStateMachine arn", ("ok", o["sm_arn"]), m["mintsm"])
             if o["start"][0] in ("ok", "InvalidName"):
                 expect("StartExecution accepts", o["start"][0] != "InvalidName", m["valid.name"][1])
-            # else refused earlier for a reason C17 does not constrain (e.g. InvalidArn: the API's ARN pattern
-            # does not match a minted state machine ARN that contains a newline) — counted in api.outcome.*
+            elif not (o["start"][0] == "InvalidArn" and "\n" in o["sm_arn"]):
+                # the one refusal C17 does not constrain: the API's ARN pattern ('.+') does not match a minted
+                # state machine ARN that contains a newline (counted in api.outcome.*); anything else is reported
+                bad.append({"site": "StartExecution outcome", "impl": o["start"], "model": "ok | InvalidName"})
+            if o["start"][0] == "ok" and not o.get("exec"):
+                bad.append({"site": "StartExecution response", "impl": o["start"], "model": "an executionArn"})
         if o.get("exec"):
             expect("StartExecution arn", ("ok", o["exec"]), m["mint"])
             want = {"describe": "derive.restartRecovery" if c["restart"] else "derive.recordCreation",
@@ -837,7 +840,11 @@ def api_case(env, c):
             out["observed"]["sync_response"] = [body.get("stateMachineArn"), body.get("name")]
         else:
             ea = body["executionArn"]
-            stub.drain(hook)
+            try:
+                stub.drain(hook)
+            except Exception as e:   # the real dispatcher logs and drops; here it is an observable
+                del stub.queue[:]
+                out["observed"]["terminal"] = ["engine raised", type(e).__name__]
         out["exec"] = ea
         notes = [note_pair(b) for b in stub.broadcasts]
         for nt in notes:
@@ -847,7 +854,7 @@ def api_case(env, c):
         end = [nt for nt in notes if nt["status"] != "RUNNING"]
         if run:
             out["observed"]["running"] = [run[0]["sm"], run[0]["name"]]
-        if end and not c["sync"]:
+        if end and not c["sync"] and "terminal" not in out["observed"]:
             out["observed"]["terminal"] = [end[-1]["sm"], end[-1]["name"]]
         if c["type"] == "STANDARD":
             st, d = env.call(front, "DescribeExecution", {"executionArn": ea})
